@@ -69,6 +69,20 @@ type) = `vecEq eqT l1 (l2.take l1.length)`, undefined behaviour unless `l1.lengt
 different body in the two instantiations (it calls `ToVecIt` / `ToSetIt`, which have one overload per iterator kind) is generated
 once per instantiation (`…_ptr`, `…_var`).
 
+Heterogeneous lookups (T9): the template members `find / contains / count (const K &)`, which exist only for a TRANSPARENT
+comparator, with the private `find_small<K>` and `FindFunctor<K>`, are translated by the subclass `HetTranslator` from two more
+instantiations, `amc::SmallSet<int, N, TLess, …, amc::FlatSet<int, TLess>>` and `…, std::set<int, TLess>>` with K = `HetKey`
+(`TLess` / `HetKey` as in flatset2lean.py: exactly the three call operators (int, int), (int, const HetKey &),
+(const HetKey &, int)), into `FindFunctor_call_het`, `find_small_het`, `find_het`, `contains_het`, `count_het` with the parameters
+`(lt : α → α → Bool) (ltEK : α → κ → Bool) (ltKE : κ → α → Bool) (N : Nat) (s : Sets.SSet α) (k : κ)`:
+
+  `_comp(a, b)` in the functor   WHICH of the three overloads is called is read from the AST (as in flatset2lean.py): `lt`, `ltEK`, `ltKE`
+  `std::find_if(f, l, FindFunctor<K>(key_comp(), k))`    `Sets.findSmallHet ltEK ltKE vec k 0` (hand-written scan, tied to the generated functor)
+  `std::count_if(f, l, FindFunctor<K>(key_comp(), k))`   `(Sets.countSmallHet ltEK ltKE vec k)` : (count, comparator calls)
+  `_set.find(k)` / `_set.count(k)` with a key of another type   `Sets.findHetIdx ltEK ltKE set k` / `Sets.countHet ltEK ltKE set k`
+                             (the backing set is a template parameter: its specification)
+  `isSmall()`                inlined (`s.set.isEmpty`)
+
 The translator refuses (exit status 2, message naming the construct and its source line) anything outside this subset.
 """
 import argparse, hashlib, json, os, re, sys, tempfile
@@ -234,10 +248,17 @@ def state_term(vec, st):
 class Translator(F.Translator):
     ITER_KINDS = ('vit', 'sit', 'pit')
     memo_const = False
+    FUNCTOR_ARG = 'int'                       # the template argument of the FindFunctor that is translated
+    SELF_PARAMS = '(lt : α → α → Bool) (N : Nat)'     # the leading parameters of every generated member function
+    SELF_ARGS = ['lt', 'N']
+
+    def target_table(self):
+        return TARGETS
+
     def __init__(self, spec, inst):
         self.spec = spec
         self.inst = inst
-        self.my_targets = [t for t in TARGETS if len(t) == 3 or t[3] == inst]
+        self.my_targets = [t for t in self.target_table() if len(t) == 3 or t[3] == inst]
         self.by_id = {}
         self.targets = {}
         self.sigs = {}
@@ -279,9 +300,9 @@ class Translator(F.Translator):
         # the functor of the inline scan
         ff = [c for m in kids(spec) if m.get('kind') == 'ClassTemplateDecl' and m.get('name') == 'FindFunctor'
               for c in kids(m) if c.get('kind') == 'ClassTemplateSpecializationDecl' and c.get('inner')]
-        ff = [c for c in ff if any(a.get('kind') == 'TemplateArgument' and qual(a) == 'int' for a in kids(c))]
+        ff = [c for c in ff if any(a.get('kind') == 'TemplateArgument' and qual(a) == self.FUNCTOR_ARG for a in kids(c))]
         if len(ff) != 1:
-            raise Unsupported(f'smallset.hpp: expected exactly one instantiated FindFunctor<int>, found {len(ff)}')
+            raise Unsupported(f'smallset.hpp: expected exactly one instantiated FindFunctor<{self.FUNCTOR_ARG}>, found {len(ff)}')
         self.functor = ff[0]
         ffields = [m.get('name') for m in kids(self.functor) if m.get('kind') == 'FieldDecl']
         if ffields != ['_comp', '_k']:
@@ -959,7 +980,7 @@ class Translator(F.Translator):
                                       f'with a FindFunctor is known')
                 p = p.copy()
                 var = self.fresh(p, 'r')
-                term = f'Sets.findSmall lt {atom(self.sub_list(p.vec, first[1], last[1]))} {atom(fn[1])} {atom(first[1])}'
+                term = self.scan_term(n, atom(self.sub_list(p.vec, first[1], last[1])), fn, atom(first[1]))
                 p.csyms = p.csyms + (f'{var}.2',)
                 if name == 'find_if':
                     res = ('vit', f'{var}.1.getD {atom(last[1])}')
@@ -968,6 +989,10 @@ class Translator(F.Translator):
                 return Let(var, term, k(p, res), line_of(n))
             return self.eval_list(args, path, cont)
         raise Unsupported(f'{where(n)}: call of function `{name}` with {len(args)} argument(s) is outside the translated subset')
+
+    def scan_term(self, n, lst, fn, start):
+        """the Lean term of the scan `std::find_if(lst, FindFunctor)` starting at index `start`: (index option, comparator calls)"""
+        return f'Sets.findSmall lt {lst} {atom(fn[1])} {start}'
 
     def whole_range(self, a, b, p, n):
         """the list of a range [begin, end) of one of the four containers or of a local pointer vector"""
@@ -1444,7 +1469,7 @@ class Translator(F.Translator):
                 p = p.copy()
                 for ex in self.extras_of.get(lean, []):
                     self.use_extra(ex)
-                call = ' '.join([lean, 'lt', 'N', arg(state_term(p.vec, p.set))] + terms + self.extras_of.get(lean, []))
+                call = ' '.join([lean] + self.SELF_ARGS + [arg(state_term(p.vec, p.set))] + terms + self.extras_of.get(lean, []))
                 if self.is_const(decl) and self.memo_const and call in p.memo:
                     # the same const member on the same state: the value already bound (its calls are counted again)
                     var = p.memo[call]
@@ -1608,6 +1633,9 @@ class Translator(F.Translator):
             if sk in ('cref', 'rref'):
                 kinds.append('elem'); names.append(lnm); ltys.append('α')
                 path.frames[-1][nm] = ('elem', lnm)
+            elif sk == 'key':
+                kinds.append('key'); names.append(lnm); ltys.append('κ')
+                path.frames[-1][nm] = ('key', lnm)
             elif sk == 'iter':
                 kinds.append('ssit'); names.append(lnm); ltys.append('Bool × Nat')
                 path.frames[-1][nm] = ('pit', f'{lnm}.1', f'{lnm}.2')
@@ -1712,7 +1740,7 @@ class Translator(F.Translator):
         if ctor:
             head = f'def {lean} (lt : α → α → Bool) (N : Nat){sig_params} : {rty} :='
         else:
-            head = f'def {lean} (lt : α → α → Bool) (N : Nat) (s : Sets.SSet α){sig_params} : {rty} :='
+            head = f'def {lean} {self.SELF_PARAMS} (s : Sets.SSet α){sig_params} : {rty} :='
         out += [self.header(decl, const, what), head]
         out += self.emit(tree, 1)
         self.other_lt = 'lt'
@@ -1892,6 +1920,212 @@ class Translator(F.Translator):
         return '\n'.join(out) + '\n'
 
 
+HET_KEY, HET_COMP = F.HET_KEY, F.HET_COMP
+HKEY = f'const {HET_KEY} &'
+
+
+def inst_source_het(set_type, n):
+    ss = f'amc::SmallSet<int, {n}, {HET_COMP}, amc::allocator<int>, {set_type}>'
+    return f'''#include <amc/smallset.hpp>
+#include <amc/flatset.hpp>
+struct {HET_KEY} {{ int d; }};
+struct {HET_COMP} {{
+  using is_transparent = void;
+  bool operator()(int, int) const;
+  bool operator()(int, const {HET_KEY} &) const;
+  bool operator()(const {HET_KEY} &, int) const;
+}};
+using SH = {ss};
+template SH::const_iterator SH::find<{HET_KEY}, true>(const {HET_KEY} &) const;
+template bool SH::contains<{HET_KEY}, true>(const {HET_KEY} &) const;
+template SH::size_type SH::count<{HET_KEY}, true>(const {HET_KEY} &) const;
+'''
+
+
+INSTANTIATIONS_HET = [
+    (f'amc::FlatSet<int, {HET_COMP}>', f'amc::FlatSet<int, {HET_COMP}, amc::allocator<int>>', 5),
+    (f'std::set<int, {HET_COMP}>', f'std::set<int, {HET_COMP}, amc::allocator<int>>', 7),
+]
+
+# the heterogeneous lookups (callees first); `isSmall()` is inlined
+TARGETS_HET = [
+    ('find_small', ('key',), 'find_small_het'),
+    ('find', ('key',), 'find_het'),
+    ('contains', ('key',), 'contains_het'),
+    ('count', ('key',), 'count_het'),
+]
+
+
+class HetTranslator(Translator):
+    """the heterogeneous lookups `f(const K &)` of `amc::SmallSet<int, N, TLess, …>` with K = HetKey.  The comparator object
+    is the triple of Lean functions (lt, ltEK, ltKE) = the three call operators of TLess."""
+    FUNCTOR_ARG = HET_KEY
+    SELF_PARAMS = '(lt : α → α → Bool) (ltEK : α → κ → Bool) (ltKE : κ → α → Bool) (N : Nat)'
+    SELF_ARGS = ['lt', 'ltEK', 'ltKE', 'N']
+    OVERLOADS = F.HetTranslator.OVERLOADS
+    arg_type = staticmethod(F.HetTranslator.arg_type)
+    comp_overload = F.HetTranslator.comp_overload
+
+    def target_table(self):
+        return TARGETS_HET
+
+    def __init__(self, spec, inst, comp_decl):
+        super().__init__(spec, inst)
+        ops = sorted(qual(m) for m in kids(comp_decl) if m.get('kind') == 'CXXMethodDecl' and m.get('name') == 'operator()')
+        if ops != sorted(self.OVERLOADS):
+            raise Unsupported(f'the call operators of {HET_COMP} are {ops}, expected {sorted(self.OVERLOADS)}')
+        if not any(m.get('kind') == 'TypeAliasDecl' and m.get('name') == 'is_transparent' for m in kids(comp_decl)):
+            raise Unsupported(f'{HET_COMP} has no member type `is_transparent`')
+        targs = [qual(a) for a in kids(spec) if a.get('kind') == 'TemplateArgument']
+        if len(targs) != 5 or targs[0] != 'int' or targs[2] != HET_COMP:
+            raise Unsupported(f'the template arguments of the SmallSet with the transparent comparator are {targs}')
+
+    def sel_kinds(self, m):
+        out = []
+        for p, kd in zip(params_of(m), super().sel_kinds(m)):
+            out.append('key' if dq(p) == HKEY else kd)
+        return tuple(out)
+
+    def type_kind(self, ty, n):
+        if isinstance(n, dict) and qual(n) == ty:
+            ty = dq(n)
+        t = strip_cvref(ty)
+        if t == HET_KEY:
+            return 'key'
+        if t == HET_COMP:
+            return 'comp'
+        if t.endswith(f'::FindFunctor<{HET_KEY}>'):
+            return 'ff'
+        if t in ('std::less<int>',) or t.endswith('::FindFunctor<int>'):
+            raise Unsupported(f'{where(n) if isinstance(n, dict) else "smallset.hpp:?"}: type `{ty}` inside the SmallSet with the '
+                              f'transparent comparator')
+        return super().type_kind(ty, None if not isinstance(n, dict) else n)
+
+    def lean_type(self, kind):
+        if kind == 'key':
+            return 'κ'
+        return super().lean_type(kind)
+
+    def to_term(self, v, kind, n):
+        if kind == 'key':
+            if v[0] != 'key':
+                raise Unsupported(f'{where(n)}: a key of another type was expected, found {v[0]}')
+            return v[1]
+        return super().to_term(v, kind, n)
+
+    @staticmethod
+    def is_comp_type(t):
+        return t == HET_COMP or re.fullmatch(r'amc::SmallSet<int, .*>::key_compare', t, re.S) is not None
+
+    def e_MemberExpr(self, n, path, k):
+        if self.mode == 'functor' and n.get('name') == '_k':
+            def cont(p, v):
+                if v[0] != 'thisptr':
+                    raise Unsupported(f'{where(n)}: member access `._k` on a {v[0]}')
+                return k(p, ('key', 'k'))
+            return self.eval(kids(n)[0], path, cont)
+        return super().e_MemberExpr(n, path, k)
+
+    def construct(self, n, path, k):
+        ty = strip_cvref(dq(n))
+        args = [a for a in kids(n)]
+        if ty.endswith(f'::FindFunctor<{HET_KEY}>') and ty.startswith('amc::SmallSet<int,') and len(args) == 2:
+            def cont(p, vs):
+                if vs[0][0] != 'comp' or vs[1][0] != 'key' or self.comp_term(vs[0]) != 'lt':
+                    raise Unsupported(f'{where(n)}: FindFunctor<{HET_KEY}>({vs[0][0]}, {vs[1][0]})')
+                return k(p, ('ff', vs[1][1]))
+            return self.eval_list(args, path, cont)
+        if ty.endswith(f'::FindFunctor<{HET_KEY}>') and len(args) == 1:    # copy of the functor (passed by value)
+            def cont(p, v):
+                if v[0] != 'ff':
+                    raise Unsupported(f'{where(n)}: FindFunctor constructed from a {v[0]}')
+                return k(p, v)
+            return self.eval(args[0], path, cont)
+        if ty == HET_COMP and len(args) == 1:
+            def cont(p, v):
+                if v[0] != 'comp':
+                    raise Unsupported(f'{where(n)}: comparator constructed from a {v[0]}')
+                return k(p, v)
+            return self.eval(args[0], path, cont)
+        if ty == HET_COMP:
+            raise Unsupported(f'{where(n)}: construction of a comparator `{HET_COMP}` with {len(args)} argument(s)')
+        return super().construct(n, path, k)
+
+    e_CXXConstructExpr = construct
+    e_CXXTemporaryObjectExpr = construct
+
+    def scan_term(self, n, lst, fn, start):
+        return f'Sets.findSmallHet ltEK ltKE {lst} {atom(fn[1])} {start}'
+
+    def e_CallExpr(self, n, path, k):
+        c = kids(n)
+        callee = c[0]
+        while callee.get('kind') == 'ImplicitCastExpr':
+            callee = kids(callee)[0]
+        rd = callee.get('referencedDecl', {})
+        if callee.get('kind') == 'DeclRefExpr' and rd.get('kind') == 'FunctionDecl' and rd.get('name') == 'count_if' and len(c) == 4:
+            # std::count_if(_vec.begin(), _vec.end(), FindFunctor<K>(key_comp(), k)): the number of inline elements on which the
+            # functor answers true (a difference_type, never negative)
+            def cont(p, vs):
+                first, last, fn = vs
+                if first[0] != 'vit' or last[0] != 'vit' or fn[0] != 'ff':
+                    raise Unsupported(f'{where(n)}: std::count_if({first[0]}, {last[0]}, {fn[0]}): only a range of the inline vector '
+                                      f'with a FindFunctor is known')
+                p = p.copy()
+                var = self.fresh(p, 'r')
+                term = f'Sets.countSmallHet ltEK ltKE {atom(self.sub_list(p.vec, first[1], last[1]))} {atom(fn[1])}'
+                p.csyms = p.csyms + (f'{var}.2',)
+                return Let(var, term, k(p, ('n', f'{var}.1')), line_of(n))
+            return self.eval_list(c[1:], path, cont)
+        return super().e_CallExpr(n, path, k)
+
+    def set_prim(self, n, name, vs, path, k):
+        st = path.set
+        if name == 'find' and len(vs) == 1 and vs[0][0] == 'key':
+            return k(path, ('sit', f'Sets.findHetIdx ltEK ltKE {atom(st)} {atom(vs[0][1])}'))
+        if name == 'count' and len(vs) == 1 and vs[0][0] == 'key':
+            return k(path, ('n', f'Sets.countHet ltEK ltKE {atom(st)} {atom(vs[0][1])}'))
+        if any(v[0] == 'key' for v in vs):
+            raise Unsupported(f'{where(n)}: member `{name}` of the backing set with a key of another type is outside the translated subset')
+        return super().set_prim(n, name, vs, path, k)
+
+    def translate_functor(self):
+        self.mode = 'functor'
+        decl = self.functor_call
+        ps = params_of(decl)
+        if len(ps) != 1 or dq(ps[0]) != 'const int &' or self.ret_text(decl) != 'bool' or not self.is_const(decl):
+            raise Unsupported(f'{where(decl)}: FindFunctor::operator() is expected to be `bool (const_reference) const`')
+        ftys = [dq(m) for m in kids(self.functor) if m.get('kind') == 'FieldDecl']
+        if ftys != [HET_COMP, HKEY]:
+            raise Unsupported(f'{where(self.functor)}: the data members of FindFunctor<{HET_KEY}> have the types {ftys}')
+        nm = ps[0].get('name')
+        lnm = nm + '_' if nm in RESERVED or nm == 'k' else nm
+        self.param_names = {'k', lnm}
+        path = Path()
+        path.frames[-1][nm] = ('elem', lnm)
+        def kret(p, v):
+            return Leaf(None, self.to_term(v, 'b', decl), p.calls_term(), None)
+        tree = self.exec_block([body_of(decl)], path, lambda p: self.fall_off(decl, p, kret), kret)
+        out = [f'/-- smallset.hpp:{line_of(decl)} `FindFunctor<K>::operator()(cref) const` of a functor built on the key `k` of another type: '
+               f'(returned value, comparator calls) -/',
+               f'def FindFunctor_call_het (lt : α → α → Bool) (ltEK : α → κ → Bool) (ltKE : κ → α → Bool) (k : κ) ({lnm} : α) : '
+               f'Option (Bool × Nat) :=']
+        out += self.emit(tree, 1)
+        self.mode = 'member'
+        return '\n'.join(out) + '\n'
+
+
+HET_PRELUDE = f'''/-! Heterogeneous lookups `f(const K &)` (members that exist only for a transparent comparator), translated from the instantiations
+''' + ', '.join(f'`amc::SmallSet<int, {n}, {HET_COMP}, amc::allocator<int>, {lab}>`' for lab, st, n in INSTANTIATIONS_HET) + f'''
+with K = `{HET_KEY}`, which give the same text: `struct {HET_KEY} {{ int d; }};  struct {HET_COMP} {{ using is_transparent = void;
+bool operator()(int, int) const;  bool operator()(int, const {HET_KEY} &) const;  bool operator()(const {HET_KEY} &, int) const; }};`.
+The comparator object of the set is the triple `lt` (element, element), `ltEK` (element, key), `ltKE` (key, element) of its call
+operators; `κ` is the type of the key. -/
+
+variable {{κ : Type}}
+'''
+
+
 PRELUDE = '''/-- how the source decides the state of another set (`o.isSmall()` inside `merge`) -/
 def isSmallOf (o : Sets.SSet α) : Bool := o.set.isEmpty
 
@@ -1972,6 +2206,37 @@ def generate_one(include, set_type, n, inst):
     return defs
 
 
+def generate_one_het(include, set_type, n, inst):
+    with tempfile.TemporaryDirectory(prefix='smallset2lean_') as wd:
+        src = os.path.join(wd, 'inst_smallset_het.cpp')
+        with open(src, 'w') as f:
+            f.write(inst_source_het(set_type, n))
+        objs = clang_dump(include, src, 'SmallSet')
+        cobjs = clang_dump(include, src, HET_COMP)
+    for o in objs:
+        annotate_lines(o)
+    tr = HetTranslator(find_spec(objs), inst, F.find_comp_decl(cobjs))
+    by_lean = {lean: mid for mid, lean in tr.targets.items()}
+    defs = {'FindFunctor_call_het': tr.translate_functor()}
+    for nm, pk, lean in (t[:3] for t in tr.my_targets):
+        defs[lean] = tr.translate(tr.by_id[by_lean[lean]], lean)
+    return defs
+
+
+def same_texts(order, results, insts):
+    texts = []
+    for lean in order:
+        have = [(insts[i][0], r[lean]) for i, r in enumerate(results) if lean in r]
+        if not have:
+            raise Unsupported(f'internal error: `{lean}` is generated by no instantiation')
+        for lab, t in have[1:]:
+            if t != have[0][1]:
+                raise Unsupported(f'the instantiations with SetType = {have[0][0]} and SetType = {lab} give different texts for `{lean}`:\n'
+                                  f'--- {have[0][0]}\n{have[0][1]}--- {lab}\n{t}')
+        texts.append(have[0][1])
+    return texts
+
+
 def generate(include):
     hdr = os.path.join(include, HEADER)
     if not os.path.exists(hdr):
@@ -2005,6 +2270,14 @@ def generate(include):
            '',
            PRELUDE]
     out += texts
+    hresults = []
+    for inst, (label, set_type, n) in enumerate(INSTANTIATIONS_HET):
+        try:
+            hresults.append(generate_one_het(include, set_type, n, inst))
+        except Unsupported as e:
+            raise Unsupported(f'[SetType = {label}] {e}')
+    out.append(HET_PRELUDE)
+    out += same_texts(['FindFunctor_call_het'] + [t[2] for t in TARGETS_HET], hresults, INSTANTIATIONS_HET)
     out.append('end AmcVerif.Gen.SmallSet')
     return '\n'.join(out) + '\n'
 
